@@ -182,13 +182,18 @@ func bigPool() []poolObj {
 	for i := 0; i < 4200; i++ {
 		mpts = append(mpts, geojson.NewPoint(pts[i*16]))
 	}
-	return []poolObj{
+	twins := []poolObj{}
+	for _, st := range []int{3, 5, 12, 64, 7} { // same centre and radius, different approximations: nothing may be shared between them
+		twins = append(twins, poolObj{Tree{Kind: "Circle", P: []int{7, 7}, R: 80000, Steps: st}, fmt.Sprintf("twin circle/%d steps", st),
+			geojson.NewCircle(geometry.Point{X: 7, Y: 7}, 80000, st)})
+	}
+	return append(twins, []poolObj{
 		{Tree{Kind: "FeatureCollection"}, "big/5000-features", geojson.NewFeatureCollection(feats)},
 		{Tree{Kind: "GeometryCollection"}, "big/4100-geometries", geojson.NewGeometryCollection(geoms)},
 		{Tree{Kind: "GeometryCollection"}, "big/4200-points", geojson.NewGeometryCollection(mpts)},
 		{Tree{Kind: "LineString"}, "big/70000-point-line", geojson.NewLineString(geometry.NewLine(pts, nil))},
 		{Tree{Kind: "Polygon"}, "big/70000-point-ring-rtree", geojson.NewPolygon(geometry.NewPoly(append(pts[:69999:69999], pts[0]), nil, &indexConfigs[1]))},
-	}
+	}...)
 }
 
 type call16 struct {
@@ -368,4 +373,43 @@ func fnvs(s string) uint64 {
 	h := fnv.New64a()
 	h.Write([]byte(s))
 	return h.Sum64() % (1 << 30)
+}
+
+// c16solo <objects> <order>: every unary method on every pool object of a FRESH process, in the given order ("fwd" / "rev");
+// prints one line "a method hash". The same call on an identical fresh object must not depend on what was called before it in the
+// process ("returns the same value it returns when run alone"): package-level caches keyed too coarsely show up as different replies
+// between the two orders.
+func init() {
+	commands["c16solo"] = func(args []string) error {
+		if len(args) != 2 {
+			return fmt.Errorf("usage: c16solo objects fwd|rev")
+		}
+		pool, err := buildPool(args[0])
+		if err != nil {
+			return err
+		}
+		idx := make([]int, len(pool))
+		for i := range idx {
+			idx[i] = i
+			if args[1] == "rev" {
+				idx[i] = len(pool) - 1 - i
+			}
+		}
+		out := map[string]string{}
+		for _, a := range idx {
+			ms := unary16
+			for k := range ms {
+				m := ms[k]
+				if args[1] == "rev" {
+					m = ms[len(ms)-1-k]
+				}
+				reply := doCall(call16{m, a, -1}, pool)
+				h := fnv.New64a()
+				h.Write([]byte(reply))
+				out[fmt.Sprintf("%d %s", a, m)] = fmt.Sprintf("%x %s", h.Sum64(), pool[a].via)
+			}
+		}
+		printJSON(out)
+		return nil
+	}
 }
